@@ -124,6 +124,24 @@ Raise ValueError
 Ok VNone
 ).
 
+(* fragment sv_matmul_0d_check from sparse/numba_backend/_common.py:matmul selector=None srchash=7455b56c40b6c273 *)
+Definition sv_matmul_0d_check (nda : pyv) (ndb : pyv) : res pyv :=
+t1_ <- (t3_ <- (t4_ <- Ok nda ;; py_eq t4_ (VInt (0))) ;; if cond t3_ then Ok t3_ else (t2_ <- Ok ndb ;; py_eq t2_ (VInt (0)))) ;;
+if cond t1_ then (
+Raise ValueError
+) else (
+Ok VNone
+).
+
+(* fragment sv_einsum_out_count_check from sparse/numba_backend/_common.py:_parse_einsum_input selector=None srchash=0e698298cc614908 *)
+Definition sv_einsum_out_count_check (cnt : pyv) : res pyv :=
+t1_ <- (t2_ <- Ok cnt ;; py_ne t2_ (VInt (1))) ;;
+if cond t1_ then (
+Raise ValueError
+) else (
+Ok VNone
+).
+
 (* fragment sv_dcn_outer_test from sparse/numba_backend/_common.py:_dot_coo_ndarray selector=None srchash=638841bb10b30445 *)
 Definition sv_dcn_outer_test (didx1 : pyv) (n : pyv) (ncols : pyv) : res pyv :=
 (t2_ <- (t3_ <- Ok n ;; py_lt didx1 t3_) ;; if cond t2_ then (t1_ <- Ok ncols ;; py_gt t1_ (VInt (0))) else Ok t2_).
@@ -159,6 +177,18 @@ Definition site_prog_dot : prog :=
 Definition site_prog_coo_getitem : prog :=
 (PSeq (PIf (PSeq (PIf PRaise PSkip) (PSeq (PKer "COO"%string) PReturn)) PSkip) (PSeq (PVal "normalize_index"%string) (PSeq (PIf PReturn PSkip) (PSeq (PKer "_mask"%string) (PSeq (PIf (PKer "stack"%string) (PIf PSkip (PSeq (PIf PReturn PSkip) PReturn))) (PSeq (PKer "COO"%string) PReturn)))))).
 
+(* call skeleton site_prog_matmul of sparse/numba_backend/_common.py:matmul skelhash=d0dd6acc8a3c0eed *)
+Definition site_prog_matmul : prog :=
+(PSeq (PVal "check_zero_fill_value"%string) (PSeq (PIf PRaise PSkip) (PSeq (PIf PRaise PSkip) (PSeq (PIf (PSeq (PKer "dot"%string) PReturn) PSkip) (PSeq (PIf (PSeq (PKer "dot"%string) (PSeq (PKer "transpose"%string) PReturn)) PSkip) (PSeq (PIf (PSeq (PSeq (PKer "reshape"%string) (PKer "dot"%string)) (PSeq (PKer "reshape"%string) PReturn)) PSkip) (PSeq (PIf (PSeq (PKer "reshape"%string) (PSeq (PKer "dot"%string) PReturn)) PSkip) (PSeq (PLoop (PIf PRaise PSkip)) (PSeq (PKer "_matmul_recurser"%string) PReturn))))))))).
+
+(* call skeleton site_prog_parse_einsum of sparse/numba_backend/_common.py:_parse_einsum_input skelhash=3d8ad94e54624a24 *)
+Definition site_prog_parse_einsum : prog :=
+(PSeq (PIf PRaise PSkip) (PSeq (PIf (PLoop (PIf PSkip (PIf PRaise PSkip))) (PSeq (PLoop (PLoop (PIf PSkip (PIf PSkip PRaise)))) (PIf (PLoop (PIf PSkip (PIf PSkip PRaise))) PSkip))) (PSeq (PIf (PIf PRaise PSkip) PSkip) (PSeq (PIf (PSeq (PLoop (PIf (PSeq (PIf PRaise PSkip) (PIf PRaise PSkip)) PSkip)) (PIf PSkip (PLoop (PIf PRaise PSkip)))) PSkip) (PSeq (PIf PSkip (PLoop (PIf PRaise PSkip))) (PSeq (PLoop (PSeq (PIf PRaise PSkip) (PIf PRaise PSkip))) (PSeq (PIf PRaise PSkip) (PSeq (PLoop (PIf PRaise PSkip)) PReturn)))))))).
+
+(* call skeleton site_prog_gcxs_getitem of sparse/numba_backend/_compressed/indexing.py:getitem skelhash=98a5f06d04742631 *)
+Definition site_prog_gcxs_getitem : prog :=
+(PSeq (PIf (PSeq (PKer "tocoo"%string) (PSeq (PIf PReturn PSkip) (PSeq (PKer "from_coo"%string) PReturn))) PSkip) (PSeq (PVal "normalize_index"%string) (PSeq (PIf (PSeq (PKer "tocoo"%string) (PSeq (PKer "from_coo"%string) PReturn)) PSkip) (PSeq (PIf PReturn PSkip) (PSeq (PIf (PSeq (PKer "get_single_element"%string) PReturn) PSkip) (PSeq (PLoop (PIf PSkip (PIf PSkip (PIf PRaise PSkip)))) (PSeq (PKer "convert_to_flat"%string) (PSeq (PKer "convert_to_flat"%string) (PSeq (PIf (PKer "get_slicing_selection"%string) (PKer "get_array_selection"%string)) (PSeq (PIf (PKer "uncompress_dimension"%string) PSkip) (PSeq (PKer "GCXS"%string) PReturn))))))))))).
+
 (* call skeleton site_prog_coo_init of sparse/numba_backend/_coo/core.py:COO.__init__ skelhash=002de240b7b83ee5 *)
 Definition site_prog_coo_init : prog :=
 (PSeq (PIf (PSeq (PIf PRaise PSkip) PReturn) PSkip) (PSeq (PIf (PSeq (PKer "as_coo"%string) PReturn) PSkip) (PSeq (PIf PRaise PSkip) (PSeq (PIf PRaise PSkip) (PSeq (PIf (PIf PRaise PSkip) PSkip) (PSeq (PIf (PSeq (PIf PRaise PSkip) (PIf PRaise PSkip)) PSkip) (PSeq (PIf (PKer "_sort_indices"%string) PSkip) (PSeq (PIf (PKer "_sum_duplicates"%string) PSkip) (PIf (PKer "_prune"%string) PSkip))))))))).
@@ -170,4 +200,7 @@ Definition site_programs : list (String.string * prog) :=
    ("site_prog_tensordot"%string, site_prog_tensordot);
    ("site_prog_dot"%string, site_prog_dot);
    ("site_prog_coo_getitem"%string, site_prog_coo_getitem);
+   ("site_prog_matmul"%string, site_prog_matmul);
+   ("site_prog_parse_einsum"%string, site_prog_parse_einsum);
+   ("site_prog_gcxs_getitem"%string, site_prog_gcxs_getitem);
    ("site_prog_coo_init"%string, site_prog_coo_init)].
